@@ -30,7 +30,7 @@ BUILD_VARIANTS = {
 GLIBCXX_VARIANT = {
     "c07_glibcxx": C.VARIANTS["san"] + ["-fsanitize=float-cast-overflow", "-D_GLIBCXX_ASSERTIONS", "-D_GLIBCXX_DEBUG"],
 }
-GLIBCXX_STAGES = "CFD"  # corpus + both flow generators (the quick plan's counts), no correspondence streams
+GLIBCXX_STAGES = "CFDK"  # corpus + the three flow generators (the quick plan's counts), no correspondence streams
 # Proofs/IncrNetTopology (used by the IncrNetModel no-fault theorems) imports the generated orientation tables
 GEN = ["OrientTables"]
 PARTIAL = [
@@ -104,6 +104,21 @@ PARTIAL = [
     "against the +-2^22 limits); every rough-legalization variant (1-D transport on/off, six cost models, line/diag/square "
     "reoptimization sizes 1..64/1..64/1..8, nbSteps 0..3, binSize 1..25) is drawn and counted in the distribution; circuits "
     "with more than ~400 cells, more than 40 rows or nets above 40 pins are not generated",
+    "callbacks that modify the circuit (flow stage K, cases k<n>: 1000 quick / 12000 thorough per build; sanitizer-monitored "
+    "only, nothing proved): the callback follows an explicit script (part of the replay) of 1-5 triggers - the occ-th "
+    "callback of a step kind LowerBound / UpperBound / PenaltyUpdate / Detailed or of any kind, occ 0..3 mostly, up to 40 - "
+    "each performing 1-4 of the modifications the API accepts while a placement call runs: Circuit::setCellWidth / "
+    "setCellHeight on one cell (inflate 25 % / x2 / +1, deflate, to zero, from zero, one more row; movable cells, fixed "
+    "cells, and movable cells of ZERO area which half of these circuits contain next to their movable cells of positive "
+    "area), setNetWeights on one net (0, 0.001, 0.25 .. 16), and the const queries hpwl / computeRows / report / toString.  "
+    "Entry sequences G, GD, GLD, LD, D, L, DG on classic and dense circuits of at most 150 cells; what the script contains "
+    "and how many actions fired is measured (cbmod_* keys; about two thirds of the cases fire at least one action, one "
+    "fifth contains a zero-to-positive resize of a movable cell).  Kept inside the domain: one movable cell of positive "
+    "area is never resized (a circuit whose only movable cell lost its area is outside the quantifier; on such a circuit "
+    "DensityGrid::fromIspdCircuit overflows `2 * margin` with minCellHeight = INT_MAX), sizes <= 2^22, areas < 2^31, heights "
+    "not below a quarter of the row height.  NOT exercised: callbacks that call the mutators refused by the busy flag "
+    "(setRows, addNet, setCellIsFixed ...: they throw inside the callback), setCellX/Y/Orientation/setSolution from a "
+    "callback, nested placement calls from a callback (C03's subject), negative or non-finite net weights",
     "parameter box: the purely numerical knobs are kept at CG tolerance >= 1e-6, approximation/cutoff distance >= 0.1; "
     "penalty.updateFactor up to 2 with maxNbSteps = 400 is inside the box and is what overflows the float penalty "
     "(fix ff24028 turns the resulting NaN into an exception; fixes/c07-global-out-of-range-placement.diff does the same "
@@ -136,7 +151,9 @@ LEVEL_TEXT = ("Lean 4 no-fault theorems over checked (typed-arithmetic) models o
               "everything else in the three entry points (the other floating point code, Eigen/boost/lemon, the density "
               "legalizer's hierarchy, search loops, glue) is monitored by an end-to-end fault oracle (forked child per case, "
               "ASan+UBSan+float-cast-overflow, assertion-enabled and NDEBUG builds; thorough tier: a third build with the "
-              "libstdc++ container assertions) over classic, 2^22-scaled, unit-grid, dense-grid and tiny circuits")
+              "libstdc++ container assertions) over classic, 2^22-scaled, unit-grid, dense-grid and tiny circuits, with observing "
+              "callbacks and with scripted callbacks that resize cells (to and from zero area), reweight nets and query the "
+              "circuit while the call is running")
 LEVEL_NOTE = ("Trusted: Lean kernel (propext/Classical.choice/Quot.sound), hand-written checked models (differential tie), "
               "the sanitizers as the observer of undefined behaviour outside the modelled cores.")
 TECHNIQUE = ("Lean 4 proof (checked arithmetic = unbounded model on the domain, domain invariants preserved) + two-sided "
